@@ -1,4 +1,4 @@
-INIT MCInitQuick
+INIT MCInitCounts
 NEXT Next
 CONSTANTS Configs = {}
   CountBasedCheck = FALSE
@@ -8,7 +8,7 @@ CONSTANTS Configs = {}
   MatchWholeSecond = FALSE
   DedupIgnoresSensor = FALSE
   FreezeRoster = FALSE
-  StampCachedEpoch = FALSE
+  StampCachedEpoch = TRUE
   CrashOnDuplicate = FALSE
   KeepDuplicates = FALSE
   CreateMissingTables = FALSE
